@@ -4,6 +4,7 @@
 import PgmVerif.Proofs.VE
 import PgmVerif.Model.JTree
 import PgmVerif.Proofs.Elim
+import PgmVerif.Proofs.Chordal
 namespace PgmVerif
 open Factor
 
@@ -93,6 +94,29 @@ theorem C14_elimination_is_perfect (g : UG) (pre : List Var) (v : Var) (post : L
     UG.AdjE (g.edges ++ g.eliminate (pre ++ v :: post)) a b := by
   rw [UG.eliminate_eq] at *
   exact UG.elimination_order_is_perfect pre g v post hnd hin a b ha hb hab hva hvb
+
+/-- **the graph filled in by any elimination order is chordal**: with `E = g.edges ++ g.eliminate order` (what
+    `triangulate` returns), every cycle `f 0, …, f (n-1), f 0` of length `n ≥ 4` on distinct eliminated vertices has a chord —
+    two positions that are not neighbours on the cycle and are adjacent in `E`.  (Perfect elimination ordering ⇒ chordal, the
+    direction of Fulkerson–Gross that the junction-tree construction relies on, applied to `C14_elimination_is_perfect`.) -/
+theorem C14_filled_graph_chordal (g : UG) (order : List Var) (hnd : order.Nodup) (hin : ∀ w ∈ order, w ∈ g.nodes)
+    (f : Nat → Var) (n : Nat) (hn : 4 ≤ n)
+    (hc : UG.Cycle (UG.AdjE (g.edges ++ g.eliminate order)) f n) (hmem : ∀ i, i < n → f i ∈ order) :
+    UG.HasChord (UG.AdjE (g.edges ++ g.eliminate order)) f n := by
+  refine UG.peo_cycle_has_chord _ (fun _ _ h => h.symm) order ?_ f n hn hc hmem
+  refine UG.peo_of_splits _ order ?_ order [] rfl
+  intro pre v post e a b ha hb hab hva hvb
+  subst e
+  exact C14_elimination_is_perfect g pre v post hnd hin a b ha hb hab hva hvb
+
+/-- non-vacuity: the 4-cycle 0-1-2-3 is a `Cycle` of its own filled graph (order 0,1,2,3), so the theorem yields a chord there -/
+example : UG.Cycle (UG.AdjE ((UG.mk [0, 1, 2, 3] [(0, 1), (1, 2), (2, 3), (0, 3)]).edges ++
+    (UG.mk [0, 1, 2, 3] [(0, 1), (1, 2), (2, 3), (0, 3)]).eliminate [0, 1, 2, 3])) (fun k => k) 4 := by
+  refine ⟨fun i j _ _ h => h, ?_, ?_⟩
+  · intro k hk
+    have : k = 0 ∨ k = 1 ∨ k = 2 := by omega
+    rcases this with rfl | rfl | rfl <;> (unfold UG.AdjE; decide)
+  · unfold UG.AdjE; decide
 
 /-- non-vacuity: eliminating the 4-cycle 0-1-2-3 in the order 0,1,2,3 adds the chord (1,3) -/
 example : (UG.mk [0, 1, 2, 3] [(0, 1), (1, 2), (2, 3), (0, 3)]).eliminate [0, 1, 2, 3] = [(1, 3)] := by decide
